@@ -328,7 +328,7 @@ class HttpParser:
                 raise InvalidHeader('invalid line %s' % curr.strip())
             name, value = curr.split(':', 1)
             name = name.rstrip(' \t').upper()
-            if HEADER_RE.search(name):
+            if not name or HEADER_RE.search(name):
                 raise InvalidHeader('invalid header name %s' % name)
 
             if value.endswith('\r\n'):
